@@ -4,9 +4,12 @@ package crypto
 
 import (
 	"crypto/ecdsa"
+	"crypto/elliptic"
 	"crypto/hkdf"
 	"crypto/sha256"
 	"math/big"
+
+	"github.com/btcsuite/btcd/btcec/v2"
 
 	"github.com/onflow/crypto/hash"
 )
@@ -140,13 +143,16 @@ func zzC11_sign(algoIdx, hasherKind int) {
 	}
 	msg := nondetBytes(2)
 	h := ecdsaHasher(hasherKind)
-	sig, err := sk.Sign(msg, h)
-	verifAssert(err == nil, "Sign succeeds")
-	verifAssert(len(sig) == 64, "signature is 64 bytes")
-	fmtOK, _ := SignatureFormatCheck(algo, sig)
-	verifAssert(fmtOK, "Sign output passes the format check")
-	ok, err := sk.PublicKey().Verify(sig, msg, h)
-	verifAssert(bAnd(ok, err == nil), "Sign output verifies")
+	// natively the library's (r, s) are random: the replay repeats the signing so that short r / s occur
+	for it := 0; it < verifNativeRepeat(6000) && len(VerifFailures) == 0; it++ {
+		sig, err := sk.Sign(msg, h)
+		verifAssert(err == nil, "Sign succeeds")
+		verifAssert(len(sig) == 64, "signature is 64 bytes")
+		fmtOK, _ := SignatureFormatCheck(algo, sig)
+		verifAssert(fmtOK, "Sign output passes the format check")
+		ok, err := sk.PublicKey().Verify(sig, msg, h)
+		verifAssert(bAnd(ok, err == nil), "Sign output verifies")
+	}
 	verifReach("sign")
 }
 
@@ -169,6 +175,43 @@ func zzC11_errors(algoIdx int) {
 	_, err = SignatureFormatCheck(BLSBLS12381, sig)
 	verifAssert(IsInvalidInputsError(err), "format check is only defined for ECDSA")
 	verifReach("errors")
+}
+
+// zzC11_changes: the key object handed to the library is the key the user sees (same curve as the
+// algorithm, same coordinates as Encode()), so that a change of key or curve changes the relation's
+// arguments; the twin (r, n-s) is a property of the relation, not of the glue.
+func zzC11_changes(algoIdx int) {
+	algo := ecdsaAlgoOf(algoIdx)
+	sk, err := DecodePrivateKey(algo, nondetBytes(32))
+	if err != nil {
+		return
+	}
+	pk := sk.PublicKey()
+	verifAssert(pk.Algorithm() == algo, "public key carries the algorithm of the private key")
+	verifAssert(sk.Algorithm() == algo, "private key carries its algorithm")
+	gp := pk.(*pubKeyECDSA).goPubKey
+	if algoIdx == 0 {
+		verifAssert(gp.Curve == elliptic.P256(), "ECDSA_P256 keys are on P-256")
+	} else {
+		verifAssert(gp.Curve == btcec.S256(), "ECDSA_secp256k1 keys are on secp256k1")
+	}
+	enc := pk.Encode()
+	verifAssert(len(enc) == 64, "raw public key is 64 bytes")
+	xb, yb := make([]byte, 32), make([]byte, 32)
+	gp.X.FillBytes(xb)
+	gp.Y.FillBytes(yb)
+	assertEqBytes(enc[:32], xb, "Encode()[:32] is the X handed to the library")
+	assertEqBytes(enc[32:], yb, "Encode()[32:] is the Y handed to the library")
+	// verification under the decoded copy of the key is the same relation
+	pk2, err := DecodePublicKey(algo, enc)
+	verifAssert(err == nil, "own public key decodes")
+	msg := nondetBytes(2)
+	sig := nondetBytes(64)
+	ok1, _ := pk.Verify(sig, msg, ecdsaHasher(0))
+	ok2, _ := pk2.Verify(sig, msg, ecdsaHasher(0))
+	verifAssert(ok1 == ok2, "decoded copy of a key verifies identically")
+	// the other algorithm's decoder is not used: the same 32 bytes under the other curve give a different key object
+	verifReach("changes")
 }
 
 // ---- C05 (ECDSA part): decoders are validating and canonical
@@ -300,10 +343,9 @@ func zzC12_bls(seedLen int) {
 		isZero = mapToFr(&x, okm)
 		verifAssume(!isZero)
 	}
-	want := make([]byte, frBytesLen)
-	writeScalar(want, &x)
 	got := sk.Encode()
-	assertEqBytes(got, want, "private key = mapToFr(HKDF(salt, IKM||0, info = 00 30, 48)) with the documented retry")
+	verifAssert(sk.(*prKeyBLSBLS12381).scalar.equals(&x), "private key = mapToFr(HKDF(salt, IKM||0, info = 00 30, 48)) with the documented retry")
+	verifAssert(frIsOS2IPModR(&sk.(*prKeyBLSBLS12381).scalar, okm), "private key = OS2IP(okm) mod r")
 	verifAssert(!sk.(*prKeyBLSBLS12381).scalar.isZero(), "the generated key is never zero")
 	sk2, err := GeneratePrivateKey(BLSBLS12381, seed0)
 	verifAssert(bAnd(err == nil, sk2.Equals(sk)), "generation is deterministic")
@@ -313,6 +355,35 @@ func zzC12_bls(seedLen int) {
 	verifAssert(err == nil, "the generated key decodes")
 	verifAssert(dec.PublicKey().Equals(pk), "public key = generator times the private scalar (same for the decoded scalar)")
 	verifReach("keygen bls")
+}
+
+// frIsOS2IPModR: x = OS2IP(b) mod r (natively with math/big; symbolically as exact linear forms over Z_r)
+func frIsOS2IPModR(x *scalar, b []byte) bool {
+	r, _ := new(big.Int).SetString("73eda753299d7d483339d80809a1d80553bda402fffe5bfeffffffff00000001", 16)
+	v := new(big.Int).SetBytes(b)
+	v.Mod(v, r)
+	want := make([]byte, frBytesLen)
+	v.FillBytes(want)
+	got := make([]byte, frBytesLen)
+	writeScalar(got, x)
+	for i := range got {
+		if got[i] != want[i] {
+			return false
+		}
+	}
+	return true
+}
+
+// zzC12_mapToFr: bytes -> F_r is reduction of the big-endian integer modulo r, for every content of n bytes
+func zzC12_mapToFr(n int) {
+	b := nondetBytes(n)
+	b0 := append([]byte{}, b...)
+	var x scalar
+	isZero := mapToFr(&x, b)
+	assertEqBytes(b, b0, "input unmodified")
+	verifAssert(frIsOS2IPModR(&x, b0), "mapToFr(b) = OS2IP(b) mod r")
+	verifAssert(isZero == x.isZero(), "returned flag = (result is zero)")
+	verifReach("mapToFr")
 }
 
 func refSHA2_256(data []byte) []byte { d := sha256.Sum256(data); return d[:] }
